@@ -87,6 +87,22 @@ Example C03_array_heap_example :
   ([(0%nat, 15)], Some (1%nat, 9)).
 Proof. vm_compute. reflexivity. Qed.
 
+(* a removal that needs a sift-UP (what the poll-timeout branch does at an inner position): counts pushed
+   11 | 1,2,10,12,20,3; the 11 sits at position 3 under the 10 at position 1; taking it out moves the last element
+   (the 3) into the hole, where it must rise above the 10 - the next three hand-overs are then 1, 2, 3. (A removal
+   that only sifts down leaves the 3 under the 10 and hands out the 10 third: scenario kind
+   poll-expires-inside-heap-up of lib/checks/brokerlib.py runs this history against broker.go.) *)
+Example C03_removal_needs_sift_up_example :
+  let l0 := fold_left hstep [HPush (0%nat, 11); HPush (1%nat, 1); HPush (2%nat, 2); HPush (3%nat, 10); HPush (4%nat, 12);
+                             HPush (5%nat, 20); HPush (6%nat, 3)] [] in
+  let l1 := hstep l0 (HRemove 3) in
+  nth_error l0 3 = Some (0%nat, 11) /\ nth_error l0 1 = Some (3%nat, 10) /\ nth_error l0 6 = Some (6%nat, 3) /\
+  l1 = [(1%nat, 1); (6%nat, 3); (2%nat, 2); (3%nat, 10); (4%nat, 12); (5%nat, 20)] /\
+  snd (lpop sf_less l1) = Some (1%nat, 1) /\
+  snd (lpop sf_less (fst (lpop sf_less l1))) = Some (2%nat, 2) /\
+  snd (lpop sf_less (fst (lpop sf_less (fst (lpop sf_less l1))))) = Some (6%nat, 3).
+Proof. vm_compute. repeat split; reflexivity. Qed.
+
 (* ---- the pointer level: what `broker heap` runs against broker/snowflake-heap.go (Model/BrokerHeap.v [xstep]:
    the slice of *Snowflake, every element carrying the `index` field written by Swap/Push/Pop). ---- *)
 
